@@ -59,18 +59,32 @@ pub proof fn lemma_tbl_priv_done(pa_b: Map<String, std::collections::HashSet<Str
     assert forall|p: String, idn: String| #[trigger] tbl_row(pa2, p, idn)
         <==> (granted_upto(l, p, idn, n) || granted_by_current(l, p, idn, n, j + 1, 0)) by {
         lemma_tbl_at(pa_b, l, n, j, 0, p, idn);
-        if granted_by_current(l, p, idn, n, j + 1, 0) {
+        lemma_last_priv_range(l.privileges, p);
+        let gb_old = granted_by_current(l, p, idn, n, j, 0);
+        let gb_new = granted_by_current(l, p, idn, n, j + 1, 0);
+        let hit = p == pn && last_ident(l.identities, idn) >= 0 && ra.identities@.contains(idn);
+        // gb_new <==> gb_old || hit
+        if gb_new {
             let x = choose|x: int| 0 <= x < j + 1 && #[trigger] ps[x] == p && ra.identities@.contains(idn);
-            if x < j { assert(granted_by_current(l, p, idn, n, j, 0)); } else { assert(p == pn); }
+            if x < j { assert(gb_old); } else { assert(x == j); assert(p == pn); assert(hit); }
         }
-        if granted_by_current(l, p, idn, n, j, 0) {
+        if gb_old {
             let x = choose|x: int| 0 <= x < j && #[trigger] ps[x] == p && ra.identities@.contains(idn);
             assert(0 <= x < j + 1 && ps[x] == p);
-            assert(granted_by_current(l, p, idn, n, j + 1, 0));
+            assert(gb_new);
         }
-        if p == pn && last_ident(l.identities, idn) >= 0 && ra.identities@.contains(idn) {
-            assert(ps[j] == p);
-            assert(granted_by_current(l, p, idn, n, j + 1, 0));
+        if hit {
+            assert(ps[j] == p && 0 <= j < j + 1);
+            assert(gb_new);
+        }
+        assert(gb_new <==> (gb_old || hit));
+        // table rows
+        if p == pn {
+            assert(tbl_row(pa2, p, idn) <==> (tbl_row(pa_b, p, idn) || (last_ident(l.identities, idn) >= 0 && ra.identities@.contains(idn))));
+        } else {
+            assert(pa2.contains_key(p) == pa_b.contains_key(p));
+            assert(tbl_row(pa2, p, idn) <==> tbl_row(pa_b, p, idn));
+            assert(!hit);
         }
     }
 }
@@ -141,5 +155,54 @@ pub proof fn lemma_tbl_final(pa: Map<String, std::collections::HashSet<String>>,
         lemma_tbl_at(pa, l, l.assignments.len() as int, 0, 0, pn, idn);
         assert(!granted_by_current(l, pn, idn, l.assignments.len() as int, 0, 0));
         assert(granted_upto(l, pn, idn, l.assignments.len() as int) <==> granted_doc(l, pn, idn));
+    }
+}
+
+// The decision taken on the tables equals the decision the statement defines on the document, for every document
+// (dangling names, missing sections, duplicate names = last occurrence), caller and URL.
+pub proof fn lemma_tables_decision_is_document_decision(d: AuthorizationItem, c: ComputedAuthorizationItem, u: http::Uri, cl: Claims)
+    requires repr(d, c),
+    ensures c.decision(u, cl) == decision_doc(d, u, cl),   // @C02.lemma.decision_on_tables_equals_declared_decision_on_document
+{
+    let l = doc_lists(d);
+    if c.mode != AuthorizationMode::Disabled {
+        // grants
+        if exists|pn: String, idn: String| c.grants(pn, idn, u, cl) {
+            let (pn, idn) = choose|pn: String, idn: String| c.grants(pn, idn, u, cl);
+            assert(tbl_row(c.privilegeAssignments@, pn, idn));
+            assert(granted_doc(l, pn, idn) && pmatch(l.privileges[last_priv(l.privileges, pn)], u) && imatch(l.identities[last_ident(l.identities, idn)], cl));
+        }
+        if exists|pn: String, idn: String| #[trigger] granted_doc(l, pn, idn)
+                && pmatch(l.privileges[last_priv(l.privileges, pn)], u) && imatch(l.identities[last_ident(l.identities, idn)], cl) {
+            let (pn, idn) = choose|pn: String, idn: String| #[trigger] granted_doc(l, pn, idn)
+                && pmatch(l.privileges[last_priv(l.privileges, pn)], u) && imatch(l.identities[last_ident(l.identities, idn)], cl);
+            assert(tbl_row(c.privilegeAssignments@, pn, idn));
+            assert(c.privileges@.contains_key(pn) && c.identities@.contains_key(idn));
+            assert(c.grants(pn, idn, u, cl));
+        }
+        // some privilege matches
+        if c.some_privilege_matches(u) {
+            let pn = choose|pn: String| c.privileges@.contains_key(pn) && pmatch(#[trigger] c.privileges@[pn], u);
+            assert(last_priv(l.privileges, pn) >= 0 && pmatch(l.privileges[last_priv(l.privileges, pn)], u));
+        }
+        if exists|pn: String| last_priv(l.privileges, pn) >= 0 && pmatch(#[trigger] l.privileges[last_priv(l.privileges, pn)], u) {
+            let pn = choose|pn: String| last_priv(l.privileges, pn) >= 0 && pmatch(#[trigger] l.privileges[last_priv(l.privileges, pn)], u);
+            assert(c.privileges@.contains_key(pn));
+            assert(c.privileges@[pn] == l.privileges[last_priv(l.privileges, pn)]);
+            assert(c.some_privilege_matches(u));
+        }
+    }
+}
+// for a section whose names are distinct, "the last item named n" is simply "the item named n"
+pub proof fn lemma_doc_item_any(s: Seq<Privilege>, i: int)
+    requires 0 <= i < s.len(), forall|a: int, b: int| 0 <= a < b < s.len() ==> s[a].name != s[b].name,
+    ensures last_priv(s, s[i].name) == i,   // @C02.lemma.distinct_names_last_is_the_item
+    decreases s.len()
+{
+    if i < s.len() - 1 {
+        assert(s.last().name != s[i].name);
+        assert(s.drop_last()[i] == s[i]);
+        assert forall|a: int, b: int| 0 <= a < b < s.drop_last().len() implies s.drop_last()[a].name != s.drop_last()[b].name by {}
+        lemma_doc_item_any(s.drop_last(), i);
     }
 }
